@@ -56,12 +56,21 @@ fn run_case(case: &Value) -> Value {
                 .map_err(|e| json!({"status": "initerr", "error": e.to_string()}))
         };
         let first_direct = InsertionContext::new_from_solution(core.clone(), (first, None), environment.clone());
-        let seed_ctx = read(&text)?;
+        let seed_ctx = read(&text).map_err(|mut e| {
+            e["written"] = serde_json::from_slice(&text).unwrap_or_default();
+            e
+        })?;
         let seed_copy = seed_ctx.deep_copy();
         let second = solve(vec![seed_ctx])?;
         let mut buf2 = std::io::BufWriter::new(Vec::new());
         write_pragmatic(core.as_ref(), &second, Default::default(), &mut buf2).map_err(|e| json!({"status": "err", "error": format!("write: {e}")}))?;
-        let final_read = read(&buf2.into_inner().unwrap())?;
+        let text2 = buf2.into_inner().unwrap();
+        let final_read = read(&text2).map_err(|mut e| {
+            e["status"] = json!("initerr2");
+            e["written"] = serde_json::from_slice(&text).unwrap_or_default();
+            e["written2"] = serde_json::from_slice(&text2).unwrap_or_default();
+            e
+        })?;
         let final_ctx = InsertionContext::new_from_solution(core.clone(), (second, None), environment.clone());
         let fit = |ctx: &InsertionContext| core.goal.fitness(ctx).collect::<Vec<_>>();
         // both sides in the same representation: written and read back (departure times as written)
